@@ -433,6 +433,14 @@ def gen_decorated(repo):
     if sa[0] != 'f':
         raise Skip('create_decorator: setattr target is not the function')
     f['setattrKeyRole'], f['setattrValRole'] = sa[1], sa[2]
+    # closures: `value` is the parameter of the function create_decorator RETURNS (one closure per factory call), `fun` is defined inside
+    # it; nothing assigns to the captured names anywhere inside create_decorator
+    f['valueIsParameterOfReturnedDecorator'] = is_name(cb[1].value, dec.name) and valv in [a.arg for a in dec.args.args] \
+        and any(n is fun for n in dec.body)
+    captured = {tyv, trv, valv, fv}
+    f['closureRebinds'] = sorted({n.id for n in ast.walk(cd) if isinstance(n, ast.Name) and isinstance(n.ctx, (ast.Store, ast.Del))
+                                  and n.id in captured}
+                                 | {nm for n in ast.walk(cd) if isinstance(n, (ast.Nonlocal, ast.Global)) for nm in n.names})
     f['transformationArgs'] = [roles[a.id] for a in fb[2].value.args]
 
     # ---- get_decorated_functions
@@ -489,12 +497,14 @@ def gen_decorated(repo):
         raise Skip('get_decorated_functions: test is not `hasattr(attribute, decorator_type)`')
     st = cond.body[0]
     tg = st.targets[0]
-    ok = isinstance(tg, ast.Subscript) and is_name(tg.slice, av) and isinstance(tg.value, ast.Subscript) \
+    ok = isinstance(tg, ast.Subscript) and (is_name(tg.slice, av) or is_name(tg.slice, nv)) and isinstance(tg.value, ast.Subscript) \
         and is_name(tg.value.value, resv) and is_name(tg.value.slice, tv_) \
         and isinstance(st.value, ast.Call) and is_name(st.value.func, 'getattr') and len(st.value.args) == 2 \
         and is_name(st.value.args[0], av) and is_name(st.value.args[1], tv_)
     if not ok:
-        raise Skip('get_decorated_functions: store is not `result[t][attribute] = getattr(attribute, t)`')
+        raise Skip('get_decorated_functions: store is not `result[t][attribute | attribute_name] = getattr(attribute, t)`')
+    f['scanKeyIsAttribute'] = is_name(tg.slice, av)       # the key of the inner dict: the attribute itself (else: its name)
+    f['scanValueIsGetattrOfAttribute'] = True             # (the only value expression inside the subset)
     # class header and library members
     for node in tree.body:
         if isinstance(node, ast.ClassDef) and node.name == 'WithDecoratedMethods':
@@ -586,6 +596,16 @@ def setattrValRole : Role := {ROLE[d['setattrValRole']]}
 def transformationArgs : List Role := [{', '.join(ROLE[r] for r in d['transformationArgs'])}]
 /-- `attribute_name.startswith(<prefix>)`: the prefix consists of this many underscores -/
 def skipPrefixUnderscores : Nat := {d['skipPrefixUnderscores']}
+/-- `decorated_functions[t][<key>] = …`: the key of the inner dict is the attribute itself (`false`: its name) -/
+def scanKeyIsAttribute : Bool := {lean_bool(d['scanKeyIsAttribute'])}
+/-- `… = getattr(attribute, t)`: the value is read from the attribute under the decorator type -/
+def scanValueIsGetattrOfAttribute : Bool := {lean_bool(d['scanValueIsGetattrOfAttribute'])}
+/-- `value` is the parameter of the function that `create_decorator` returns and `fun` is defined inside that function: every factory
+    call `decorator(value)` makes a closure of its own -/
+def valueIsParameterOfReturnedDecorator : Bool := {lean_bool(d['valueIsParameterOfReturnedDecorator'])}
+/-- captured names (`decorator_type`, `transformation`, `value`, `f`) that are assigned, deleted or declared nonlocal / global somewhere
+    inside `create_decorator` -/
+def closureRebinds : List String := [{', '.join(lean_str(a) for a in d['closureRebinds'])}]
 /-- the result is initialised with one empty dict per member of the enum -/
 def initAllMembers : Bool := {lean_bool(d['initAllMembers'])}
 /-- bases of `class WithDecoratedMethods(...)` as written -/
@@ -642,6 +662,88 @@ def attribute_stores(tree):
     return sorted(set(out))
 
 
+STATE_BUILTINS = ('setattr', 'delattr', 'vars', 'globals', 'locals')
+STATE_ATTRS = ('__dict__', '__setattr__', '__delattr__')
+
+
+def _functions(tree):
+    return [n for n in ast.walk(tree) if isinstance(n, (ast.FunctionDef, ast.AsyncFunctionDef, ast.Lambda))]
+
+
+def _own_nodes(fn):
+    """nodes of a function body without the bodies of nested functions / classes"""
+    stack = list(fn.body) if isinstance(fn.body, list) else [fn.body]
+    while stack:
+        n = stack.pop()
+        yield n
+        for ch in ast.iter_child_nodes(n):
+            if not isinstance(ch, (ast.FunctionDef, ast.AsyncFunctionDef, ast.Lambda, ast.ClassDef)):
+                stack.append(ch)
+
+
+def _local_names(fn):
+    """names a function binds itself (plain assignments, loop / with / comprehension targets, walrus): a subscript store into one of
+    them (`result[k] = v` on a dict built in the same call) leaves nothing behind — unless the name is a parameter or `self`"""
+    out = set()
+    for n in _own_nodes(fn):
+        if isinstance(n, ast.Name) and isinstance(n.ctx, ast.Store):
+            out.add(n.id)
+    a = fn.args
+    for p_ in a.posonlyargs + a.args + a.kwonlyargs + [x for x in (a.vararg, a.kwarg) if x]:
+        out.discard(p_.arg)
+    return out
+
+
+def _root_name(n):
+    while isinstance(n, (ast.Attribute, ast.Subscript)):
+        n = n.value
+    return n.id if isinstance(n, ast.Name) else None
+
+
+def object_stores(tree):
+    """every statement target that writes into an OBJECT instead of binding a name: `<anything>.<attr> = …` (also `self.x`,
+    `type(self).x`, `cls.x`, `function.slot`), `<anything>[key] = …` unless the container is a local of the same call that holds no
+    alias of object state, `del` of either — the places where a query could leave something for the next one"""
+    out = []
+    scopes = [(fn, _local_names(fn), list(_own_nodes(fn))) for fn in _functions(tree)]
+    in_fn = {id(n) for _, _, nodes in scopes for n in nodes}
+    scopes.append((None, set(), [n for n in ast.walk(tree) if id(n) not in in_fn]))
+    for fn, local, nodes in scopes:
+        for n in nodes:
+            if isinstance(n, ast.Attribute) and isinstance(n.ctx, (ast.Store, ast.Del)):
+                out.append(ast.unparse(n))
+            elif isinstance(n, ast.Subscript) and isinstance(n.ctx, (ast.Store, ast.Del)):
+                root = n.value
+                while isinstance(root, ast.Subscript):          # `result[t][attribute] = …`: still the local `result`
+                    root = root.value
+                if not (isinstance(root, ast.Name) and root.id in local):
+                    out.append(ast.unparse(n))
+    return sorted(set(out))
+
+
+def state_calls(tree):
+    """uses of the builtins / dunder attributes through which object state is written or handed out without a store statement:
+    setattr, delattr, vars, globals, locals, `.__dict__`, `.__setattr__`, `.__delattr__`"""
+    out = []
+    for n in ast.walk(tree):
+        if isinstance(n, ast.Name) and n.id in STATE_BUILTINS:
+            out.append(n.id)
+        elif isinstance(n, ast.Attribute) and n.attr in STATE_ATTRS:
+            out.append(ast.unparse(n))
+    return sorted(set(out))
+
+
+def mutable_defaults(tree):
+    """parameter defaults that are objects created once, at definition time (`def f(self, _memo={})`): shared by all calls"""
+    out = []
+    for fn in _functions(tree):
+        a = fn.args
+        for dflt in list(a.defaults) + [x for x in a.kw_defaults if x is not None]:
+            if not (isinstance(dflt, ast.Constant) or (isinstance(dflt, ast.UnaryOp) and isinstance(dflt.operand, ast.Constant))):
+                out.append(f"{getattr(fn, 'name', '<lambda>')}: {ast.unparse(dflt)}")
+    return sorted(set(out))
+
+
 def gen_shape(repo):
     """facts about the two mixin modules that do not depend on the statement shapes gen_mixins insists on: class-creation hooks, per-class
     and per-module state, attribute slots on functions"""
@@ -670,6 +772,19 @@ def wdmModuleState : List String := {lst(module_state(wdm))}
 /-- `<name>.<attr> = …` anywhere in the two files (`self.<attr>` aside): a slot on a function or class shared between calls -/
 def gmAttributeStores : List String := {lst(attribute_stores(gm))}
 def wdmAttributeStores : List String := {lst(attribute_stores(wdm))}
+/-- every target in generic_mixin.py that writes into an OBJECT instead of binding a name — `<anything>.<attr> = …` (`self.x`,
+    `type(self).x`, `cls.x`, `function.slot`), `<anything>[key] = …` on a container that is not a local of the same call, `del` of either:
+    the places where `_get_types` / `get_generic_base` / `type_var` / `type_vars` could leave something on the class, the instance or a
+    shared object for the next query (a memo such as `type(self)._resolved_type_vars = …` is found through the MRO by every sub class) -/
+def gmStores : List String := {lst(object_stores(gm))}
+/-- the same for with_decorated_methods.py (`decorator.value = value` would be a slot shared by all configured decorators of one
+    factory; `decorated_functions[t][attribute] = …` writes into a dict made by the same call and is not listed) -/
+def wdmStores : List String := {lst(object_stores(wdm))}
+/-- uses of `setattr` / `delattr` / `vars` / `globals` / `locals` / `.__dict__` / `.__setattr__` / `.__delattr__` in generic_mixin.py: the
+    ways to write object state without a store statement -/
+def gmStateCalls : List String := {lst(state_calls(gm))}
+/-- parameter defaults in generic_mixin.py that are objects created once at definition time (`def _get_types(self, _memo={{}})`) -/
+def gmMutableDefaults : List String := {lst(mutable_defaults(gm))}
 /-- `global` / `nonlocal` statements -/
 def scopeEscapes : Nat := {sum(isinstance(n, (ast.Global, ast.Nonlocal)) for t in (gm, wdm) for n in ast.walk(t))}
 
